@@ -577,6 +577,11 @@ def parse_vc(path, variables=None):
             cur = None
         elif kw == 'raw':
             cur.raw = True
+        elif kw == 'cond':
+            # item only present when the (substituted) condition text is truthy
+            if rest.strip() in ('', '0', 'false', 'no'):
+                u.fns.remove(cur)
+                cur.dropped = True
         elif kw == 'like':
             # reuse the substitutions, loop invariants and hints of an earlier item (same source text shape)
             src_spec = next((f for f in u.fns if (f.alias or f.path.split('::')[-1]) == rest and f is not cur), None)
